@@ -17,6 +17,10 @@ package wgen
 //   X5  nesting: inner structs of 1-2 members over the nesting alphabet x 4 inner attribute placements,
 //       placed after a lead, before a trail, between both, in array<I,2>, in a member array and in a
 //       runtime-sized tail; plus @align(32) / @size(+16) on the struct-typed member
+//   XO  declaration order: {f32, I, f16} and array<I,2> for every inner struct of X5, and a struct
+//       carrying spelled attributes on an inner and an outer member (5 spellings, incl. the constant
+//       spellings), each with the structs declared outermost first, and with the whole module
+//       reversed (entry point, variables, structs, constants)
 //   XS  spellings: 3-member structs with the attribute(s) on the member at position 0/1/2, the
 //       attributed member over 7 types, every @align / @size value (the bound's values plus 4096 and
 //       65536 for @align, +252 and +65532 for @size) and the align+size pair in both orders x every
@@ -114,13 +118,14 @@ func al(i, v int) xAttr { return xAttr{i: i, align: v, dsize: -1} }
 func sz(i, d int) xAttr { return xAttr{i: i, dsize: d} }
 
 type xShape struct {
-	sub string
-	t   *XT
+	sub   string
+	t     *XT
+	order int
 }
 
 func xShapes(thorough bool) []xShape {
 	var out []xShape
-	add := func(sub string, t *XT) { out = append(out, xShape{sub, t}) }
+	add := func(sub string, t *XT) { out = append(out, xShape{sub: sub, t: t}) }
 	L := xLeaves()
 
 	// X0
@@ -287,6 +292,20 @@ func xShapes(thorough bool) []xShape {
 		}
 	}
 
+	// XO: declaration order
+	for _, in := range inner {
+		for _, order := range []int{XOrderOuterFirst, XOrderReversed} {
+			out = append(out, xShape{"XO", xMk("SX", []*XT{XS("f32"), in, XS("f16")}), order})
+			out = append(out, xShape{"XO", XArr(in, 2), order})
+		}
+	}
+	for _, sp := range []XSpell{SpDec, SpDecU, SpConst, SpConstAfter, SpConstExpr} {
+		for _, order := range []int{XOrderOuterFirst, XOrderReversed} {
+			in := xMk("IX", []*XT{XS("f32"), XS("f16")}, xAttr{i: 0, dsize: 4, ssp: sp})
+			out = append(out, xShape{"XO", xMk("SX", []*XT{XS("f32"), in, XS("f32")}, xAttr{i: 2, align: 16, dsize: -1, asp: sp}), order})
+		}
+	}
+
 	// XS: spellings
 	targets := []*XT{XS("f32"), XV("f32", 2), XV("f32", 3), XS("f16"), XV("f16", 3), XArr(XS("f32"), 2), xMk("IX", []*XT{XS("f32"), XS("f16")})}
 	for _, sp := range XSpellings() {
@@ -324,6 +343,7 @@ type XCase struct {
 	Sub     string
 	Mode    string // "storage", "uniform", "workgroup"
 	T       *XT
+	Order   int // XOrderNormal, XOrderOuterFirst, XOrderReversed
 	Globals []XGlobal
 	Src     string
 }
@@ -363,7 +383,7 @@ func F3xShapeAt(thorough bool, i int) *XCase {
 	f := xFam(thorough)
 	e := f.ents[i]
 	sh := f.shapes[e.sh]
-	c := &XCase{Sub: sh.sub, Mode: e.mode, T: sh.t}
+	c := &XCase{Sub: sh.sub, Mode: e.mode, T: sh.t, Order: sh.order}
 	switch e.mode {
 	case "storage":
 		if !sh.t.HasAtomic() {
@@ -381,13 +401,16 @@ func F3xShapeAt(thorough bool, i int) *XCase {
 		}
 	}
 	c.Sig = "F3x/" + sh.sub + "/" + e.mode + "/" + sh.t.Sig()
+	if sh.order != XOrderNormal {
+		c.Sig += "#" + XOrderNames[sh.order]
+	}
 	return c
 }
 
 // F3xAt returns program i of the family (same index space as F3x(thorough).At).
 func F3xAt(thorough bool, i int) *XCase {
 	c := F3xShapeAt(thorough, i)
-	c.Src = XPrint(c.Globals)
+	c.Src = XPrintOrder(c.Globals, c.Order)
 	return c
 }
 
